@@ -51,6 +51,9 @@ def run_conc(prop, tier, seed, replay=None):
         n_scn += s["scenarios"]
         events.update(s["events"])
     res = vlib.validate_traces(traces)
+    if replay:
+        os.makedirs(os.path.join(vlib.VERIF, "out", prop), exist_ok=True)
+        shutil.copy(os.path.join(outs[0], "trace.ndjson"), os.path.join(vlib.VERIF, "out", prop, "replay.trace.ndjson"))
 
     harness = [v for v in res["violations"] if v["inv"] == "HARNESS"]
     if harness:
@@ -68,7 +71,8 @@ def run_conc(prop, tier, seed, replay=None):
     for kid, (k, cnt) in listed.items():
         print("KNOWN-FINDING: %s (%d instance(s) this run)" % (k["text"].split(" ", 1)[1], cnt))
     rc = 0
-    shutil.rmtree(os.path.join(vlib.VERIF, "out", prop), ignore_errors=True)
+    if not replay:
+        shutil.rmtree(os.path.join(vlib.VERIF, "out", prop), ignore_errors=True)
     for i, v in enumerate(unlisted[:20]):
         out = os.path.dirname(v["trace"])
         pf = os.path.join(out, "plans", "%d.json" % v["scn"])
@@ -118,7 +122,10 @@ def main():
     ap.add_argument("prop")
     ap.add_argument("--tier", default=os.environ.get("VERIF_TIER", "quick"))
     ap.add_argument("--replay")
+    ap.add_argument("--no-evidence", action="store_true", help="do not rewrite evidence/<id>.json (used when checking seeded changes)")
     a = ap.parse_args()
+    if a.no_evidence:
+        vlib.write_evidence = lambda *x, **k: None
     seed = int(os.environ.get("VERIF_SEED", "1"))
     try:
         if a.prop in CONC:
@@ -126,6 +133,12 @@ def main():
         else:
             print("unknown property", a.prop)
             rc = 2
+    except vlib.ProxyPanic as e:
+        path = vlib.save_replay(a.prop, 0, {"property": a.prop, "violation": {"inv": "C18_panic", "detail": e.what}, "plan": e.plan})
+        print("VIOLATION property=%s replay=%s" % (a.prop, path))
+        print("  the proxy panicked (a panic outside a command handler kills the whole process): %s" % e.what)
+        print(e.text[-1500:])
+        rc = 1
     except Inconclusive as e:
         print("INCONCLUSIVE property=%s: %s" % (a.prop, e))
         rc = 2
